@@ -197,6 +197,12 @@ func (fr *Frame) funcValueContract(v ssa.Value) *Contract {
 	if c, ok := fr.ex.P.db.Funcs["functype:"+typeName(v.Type())]; ok {
 		return c
 	}
+	if pv, ok := v.(*ssa.Parameter); ok && pv.Parent() != nil {
+		// a function-typed parameter may carry a contract: paramfunc:<function key>.<param>
+		if c, ok := fr.ex.P.db.Funcs["paramfunc:"+funcKey(pv.Parent())+"."+pv.Name()]; ok {
+			return c
+		}
+	}
 	u, ok := v.(*ssa.UnOp)
 	if !ok {
 		return nil
@@ -536,9 +542,15 @@ func (fr *Frame) applyContract(c *Contract, key string, sig *types.Signature, re
 	}
 	// post state
 	keys := map[string]bool{}
+	freshOnly := map[string]bool{}
 	if fn, ok := ex.P.funcs[key]; ok && !c.Trusted {
 		for k := range ex.P.modset(fn) {
 			keys[k] = true
+		}
+		for k := range ex.P.freshKeys(fn) {
+			if !keys[k] {
+				freshOnly[k] = true
+			}
 		}
 	}
 	ex.P.contractKeys(c, keys)
@@ -690,6 +702,34 @@ func (fr *Frame) applyContract(c *Contract, key string, sig *types.Signature, re
 					row := byRow[rk][0][0]
 					ex.vc.assert(Forall([]string{"fj"}, Implies(And(outside...), Eq(Select(Select(nw, row), j), Select(Select(old, row), j))), Select(Select(nw, row), j)))
 				}
+			}
+		}
+	}
+	// heaps the callee writes only at its own allocations: unchanged on every object that
+	// existed before the call, unconstrained on the fresh ones (their fields are whatever the
+	// callee stored; the contract's ensures describe them)
+	for k := range freshOnly {
+		if keys[k] {
+			delete(freshOnly, k)
+		}
+	}
+	if len(freshOnly) > 0 && !keys["*"] {
+		for k := range freshOnly {
+			keys[k] = true
+		}
+		inner := ev.frame
+		ev.frame = func(h *HeapInfo, old, nw Term) {
+			if freshOnly[h.Key] && !whole[h.Key] && len(targets[h.Name]) == 0 {
+				if h.Dim == 0 {
+					ex.vc.assert(Eq(nw, old))
+					return
+				}
+				r := Term{"fr", SInt}
+				ex.vc.assert(Forall([]string{"fr"}, Implies(Le(r, preAlloc), Eq(Select(nw, r), Select(old, r))), Select(nw, r)))
+				return
+			}
+			if inner != nil {
+				inner(h, old, nw)
 			}
 		}
 	}
